@@ -58,8 +58,16 @@ func corpusFor(prop, repoDir, verifDir string) []GenCorpus {
 		}
 		return out
 	}
+	if genTier == "quick" {
+		// quick: the key-type corpus and the compressed repository schema; thorough adds the uncompressed one
+		// (same templates, three more ordered maps and three more keyed lists)
+		return all[:2]
+	}
 	return all
 }
+
+// genTier is the tier of the current check run (set by cmdCheck).
+var genTier = "thorough"
 
 // genDirName is the virtual directory (inside the repository's module, never created on disk) in which the
 // generated packages are presented to the Go tool chain through a file overlay.
